@@ -47,7 +47,7 @@ def run_cases(cases, profile="dev", timeout=300):
     exe = build(profile)
     inp = "\n".join(json.dumps(c) for c in cases) + "\n"
     p = subprocess.run([exe], input=inp, stdout=subprocess.PIPE, stderr=subprocess.PIPE, text=True, timeout=timeout)
-    lines = [l for l in p.stdout.split("\n") if l.strip()]
+    lines = [l for l in p.stdout.split("\n") if l.startswith("{")]       # the real code prints progress lines of its own
     out = [json.loads(l) for l in lines]
     out += [{"crash": "replay process ended (rc=%s) %s" % (p.returncode, p.stderr[-300:])}] * (len(cases) - len(out))
     return out
